@@ -23,7 +23,19 @@ func multiFault(c *fw.Ctx, n int, emit emitFn) {
 		if i%17 == 1 {
 			class = 14
 		}
+		if i%29 == 2 {
+			class = 15
+		}
 		switch class {
+		case 15: // header, query and property names that differ only in blanks or letter case (valid document; exporters key maps by name)
+			names := []string{"X-Id", "X-Id ", " X-Id", "x-id", "X-ID", "X-Id\\t", "X_Id"}
+			r.Shuffle(len(names), func(a, b int) { names[a], names[b] = names[b], names[a] })
+			var props []string
+			for q := 0; q < k+1 && q < len(names); q++ {
+				props = append(props, fmt.Sprintf("\"%s\": \"v%d\"", names[q], q))
+			}
+			obj := "{" + strings.Join(props, ", ") + "}"
+			sb.WriteString("GET /h\n  200\n    Headers\n      " + obj + "\n    Body\n      " + obj + "\nPOST /h\n  Request\n    Headers\n      " + obj + "\n    Body any\n  200 any\n")
 		case 14: // an accepted document in which several response codes cannot be exported to OpenAPI, for different reasons
 			sb.WriteString("GET /a\n")
 			codes := r.Perm(6)
@@ -194,6 +206,21 @@ func C06(c *fw.Ctx) {
 		acceptedWorkload(c, c.Pick(1, 8), e)
 		multiFault(c, c.Pick(3000, 60000), e)
 		macroGraphs(c, e)
+		// builds that reuse Option values: [A], [A,B], [A] in one process - the first and the third build are the same project with the
+		// same options and must give the same result
+		for i, t := range []struct{ doc, a, b string }{
+			{"JSIGHT 0.3\nMACRO @m\n(\n  200 any\n)\nGET /a\n  PASTE @m\n", "ENUM", "MACRO"},
+			{"JSIGHT 0.3\nTYPE @t\n  {\"k\": 1}\nGET /a\n  200 @t\n", "TAG", "TYPE"},
+			{"JSIGHT 0.3\nURL /a\n  GET\n    200 any\n", "MACRO", "URL"},
+			{"JSIGHT 0.3\nENUM @e\n  [1]\nGET /a\n  Description\n    text\n  200 any\n", "SERVER", "Description"},
+		} {
+			j := singleJob(fmt.Sprintf("optreuse-%d", i), []byte(t.doc), false)
+			j.ID = "optreuse/" + j.ID
+			j.Ops = []string{"json", "openapi"}
+			j.Fresh = true
+			j.OptSeq = [][][]string{{{t.a}}, {{t.a}, {t.b}}, {{t.a}}, {{t.b}, {t.a}}, {{t.a}}}
+			emit(j)
+		}
 		// "concurrently with other builds", including the very first use of the library in a process: fresh worker processes
 		// whose first action is 32 simultaneous builds; the sequential results are computed afterwards and compared
 		corpus := Corpus(c)
@@ -213,6 +240,18 @@ func C06(c *fw.Ctx) {
 			return
 		}
 		label := j.ID[:strings.Index(j.ID, "/")]
+		if label == "optreuse" {
+			c.Count(j.ID, true)
+			c.Inc("streams", "option-values-reused", 1)
+			if res.Fatal != nil {
+				c.Violate("fatal:"+res.Fatal.Kind+":"+res.Fatal.Func, "worker died during the option-reuse sequence: "+firstLines(res.Fatal.Stderr, 4), replayOf(j, res))
+				return
+			}
+			if s := res.OptSigs; len(s) == 5 && (s[0] != s[2] || s[0] != s[4]) {
+				c.Violate("nondeterministic:reused-option-value", fmt.Sprintf("the same project with the same option value gives another result after an unrelated build: %s  VS  %s  VS  %s", trunc(s[0], 160), trunc(s[2], 160), trunc(s[4], 160)), replayOf(j, res))
+			}
+			return
+		}
 		if label == "cold" {
 			c.Count(j.ID+fmt.Sprint(j.Conc.Seed), true)
 			c.Inc("streams", "cold-start-concurrent-first-use", 1)
